@@ -38,6 +38,7 @@ def run(ctx):
     ctx.assumptions += ["lock identity abstracted to protected type", "CHA for dyn calls"]
     r201(ctx)
     r202(ctx)
+    r203(ctx)
 
 
 def r201(ctx):
@@ -142,3 +143,112 @@ def r202(ctx):
                 sites.append((b, c))
     ctx.floor("R20.2", "ChannelSlot lock sites", len(sites), 5)
     ctx.sample("R20.2", "slot-lock-sites", "vls-core", sorted({R.owner_name(ctx.prog, b) for b, c in sites})[:30])
+
+
+LOGGING_ONLY = {"lightning_signer::node::NodeState::summary"}   # updates last_summary only (trace_node_state!)
+SERIALIZED = {}   # (function, class) -> reason, for re-acquisitions that are serialized by other means (none today)
+
+
+def r203(ctx):
+    ctx.rule("R20.3", "check-then-act atomicity: no function releases a lock of class K and later re-acquires K for "
+                      "writing (DerefMut through the new guard) unless some other guard is held continuously across "
+                      "the gap (which serializes the two critical sections)")
+    from engine.cfg import FnView
+    p = ctx.prog
+    la = locks.LockAnalysis(p, scope=lambda x: False)
+    n_fn = n_multi = 0
+    for b in p.bodies.values():
+        if b.d.krate not in SCOPE_CRATES or b.d.is_bin:
+            continue
+        on = R.owner_name(p, b)
+        if R.is_test_util(on) or on in NOT_SHARED:
+            continue
+        f = la.facts(b)
+        acq = [(bi, c, cls) for bi, c, cls, src in f["acq_sites"] if src is None and cls in CORE_CLASSES]
+        if not acq:
+            continue
+        n_fn += 1
+        by = {}
+        for bi, c, cls in acq:
+            by.setdefault(cls, []).append((bi, c))
+        multi = {k: v for k, v in by.items() if len(v) > 1}
+        if not multi:
+            continue
+        fv = fnview(ctx, b)
+        held = la.held_at_blocks(b)
+        guards = f["guards"]
+        # writes through a guard: DerefMut::deref_mut(&mut guard)
+        mutref = {}
+        for bi in range(fv.n):
+            if b.cleanup[bi]:
+                continue
+            for s_ in b.stmts(bi):
+                if s_.kind == "a" and s_.rv.op == "ref" and s_.rv.a and s_.place.is_local() and \
+                   s_.rv.place.is_local() and s_.rv.place.local in guards:
+                    mutref[s_.place.local] = s_.rv.place.local
+        writes = {}     # guard local -> [block]
+        for bi, c in b.calls():
+            nm = c.callee.name if c.callee else ""
+            if "ops::DerefMut>::deref_mut" in nm and c.args and c.args[0].place is not None and \
+               c.args[0].place.local in mutref and c.dest.is_local():
+                # what is done with the &mut T: logging bookkeeping (NodeState::summary) is not an "act"
+                tgt = {c.dest.local}
+                for bj in range(fv.n):
+                    if b.cleanup[bj]:
+                        continue
+                    for s_ in b.stmts(bj):
+                        if s_.kind == "a" and s_.place.is_local() and s_.rv.op in ("ref", "use") and \
+                           (s_.rv.place or (s_.rv.ops and s_.rv.ops[0].place)) is not None:
+                            pl = s_.rv.place if s_.rv.op == "ref" else s_.rv.ops[0].place
+                            if pl.local in tgt and all(x == "*" for x in pl.proj):
+                                tgt.add(s_.place.local)
+                acts = []
+                for bj in range(fv.n):
+                    if b.cleanup[bj]:
+                        continue
+                    for s_ in b.stmts(bj):
+                        if s_.place.local in tgt and s_.place.proj and s_.place.proj[0] == "*":
+                            acts.append("field write")
+                    t_ = b.term(bj)
+                    if t_.kind == "call" and t_.call is not c:
+                        if any(a.place is not None and a.place.local in tgt for a in t_.call.args):
+                            acts.append(t_.call.callee.name if t_.call.callee else "?")
+                if any(a not in LOGGING_ONLY for a in acts):
+                    writes.setdefault(mutref[c.args[0].place.local], []).append(bi)
+        for cls, sites in multi.items():
+            n_multi += 1
+            for (b1, c1) in sites:
+                for (b2, c2) in sites:
+                    if b1 == b2 or not fv.reaches(c1.target if c1.target is not None else b1, b2):
+                        continue
+                    g2 = c2.dest.local
+                    if not writes.get(g2):
+                        continue      # second section only reads
+                    g1 = c1.dest.local
+                    if g1 == g2:
+                        continue
+                    # is the first guard still held when the second is taken?  then it is a nested lock, not a gap
+                    if g1 in held[b2]:
+                        continue
+                    # some other guard held continuously from the first acquisition to the second
+                    between = fv.reach(b1) & {x for x in range(fv.n) if b2 in fv.reach(x)}
+                    spanning = None
+                    for g, gcls in guards.items():
+                        if g in (g1, g2):
+                            continue
+                        if all(g in held[x] for x in between if x != b1) and g in held[b2]:
+                            spanning = gcls
+                    key = f"{on}/reacquires/{cls}"
+                    if spanning:
+                        ctx.ob("R20.3", True, key, "", where=f"{b.file}:{c2.line}",
+                               sample=f"re-acquisition of {cls} at line {c2.line} is serialized by the {spanning} guard "
+                                      f"held across the gap")
+                        continue
+                    ok = (on, cls) in SERIALIZED
+                    ctx.ob("R20.3", ok, key,
+                           f"`{on}` locks {cls} (line {c1.line}), releases it, and locks it again for writing (line "
+                           f"{c2.line}) with no other guard held across the gap: a decision taken under the first hold "
+                           f"can be stale when the write happens (two concurrent requests can both pass the check)",
+                           where=f"{b.file}:{c2.line}", sample=SERIALIZED.get((on, cls)))
+    ctx.floor("R20.3", "functions acquiring core locks", n_fn, 30)
+    ctx.extra["functions_reacquiring_a_class"] = n_multi
